@@ -591,6 +591,13 @@ def rule_frag_contig(ctx, cfg, F):
     fu_data = next(i for i in range(1, fu.argc + 1) if fu.local_ty(i) == "&[u8]") - 1
     n = 0
     E_locals = set()
+    E1_locals = set()
+    first_blocks = []
+    # two-phase form: the in-loop first-fragment calls and the follow-up calls sit in different loops, the former ahead of the latter
+    ff_loop_calls = [b for b, t in f.calls() if strip_generics(callee_name(t)) == ffname and _in_loop(f, b)]
+    fu_calls = [b for b, t in f.calls() if strip_generics(callee_name(t)) == funame]
+    two_phase = bool(ff_loop_calls) and bool(fu_calls) and not any(fb in f.natural_loop(h) and ub in f.natural_loop(h) for h in f.loop_headers() for fb in ff_loop_calls for ub in fu_calls) \
+        and not any(fb in f.reachable(ub) for fb in ff_loop_calls for ub in fu_calls)
     for b, t in f.calls():
         nm = strip_generics(callee_name(t))
         if nm == ffname:
@@ -598,10 +605,21 @@ def rule_frag_contig(ctx, cfg, F):
             le = expr_strip_blocks(ex.of_operand(t["args"][ff_len]))
             if le == ("call", "core::slice::len", (("param", data_param),)):
                 R.ok("first-fragment call announces len(data)", f.loc(b), cfg)
+            elif le == ("const", 0) and _under_is_empty(f, ex, b, data_param):
+                R.ok("first-fragment call announces 0 where data is known to be empty", f.loc(b), cfg)
             else:
                 R.violate("%s:announced-length:%s" % (f.path, "loop" if _in_loop(f, b) else "single"), "the total length announced in the header is %s, not len(data)" % expr_str(ex.of_operand(t["args"][ff_len])), f.path, f.loc(b), config=cfg)
             de = expr_strip_blocks(ex.of_operand(t["args"][ff_data]))
-            if _in_loop(f, b):
+            if _in_loop(f, b) and two_phase:
+                # the first fragment has a retry loop of its own, ahead of the follow-up loop: it sends data[..E1] and the position starts at that E1
+                e1 = _range_end_local(f, t["args"][ff_data], "RangeTo")
+                if de[0] == "call" and de[1].endswith("index") and de[2][0] == ("param", data_param) and de[2][1][0] == "agg" and de[2][1][1].endswith("RangeTo::RangeTo") and e1 is not None:
+                    E1_locals.add(e1)
+                    first_blocks.append(b)
+                    R.ok("first fragment (own retry loop) sends data[..E1]", f.loc(b), cfg)
+                else:
+                    R.violate("%s:first-fragment-slice" % f.path, "the first fragment does not send data[..E] (%s)" % expr_str(de)[:80], f.path, f.loc(b), config=cfg)
+            elif _in_loop(f, b):
                 if de[0] == "call" and de[1].endswith("index") and de[2][0] == ("param", data_param) and de[2][1][0] == "agg" and de[2][1][1].endswith("RangeTo::RangeTo"):
                     e = de[2][1][2][0]
                     if e[0] == "var":
@@ -639,9 +657,13 @@ def rule_frag_contig(ctx, cfg, F):
             okk = de[0] == "call" and de[1].endswith("index") and de[2][0] == ("param", data_param) and de[2][1][0] == "agg" and de[2][1][1].endswith("Range::Range")
             if okk:
                 s_, e_ = de[2][1][2]
+                e2 = _range_end_local(f, t["args"][fu_data], "Range") if two_phase else None
                 if s_ == ("var", P) and e_[0] == "var":
                     E_locals.add(e_[1])
                     R.ok("follow-up transmitter sends data[P..E]", f.loc(b), cfg)
+                elif s_ == ("var", P) and e2 is not None:
+                    E_locals.add(e2)
+                    R.ok("follow-up transmitter sends data[P..E] (E a per-iteration local)", f.loc(b), cfg)
                 else:
                     R.violate("%s:followup-slice-bounds" % f.path, "the follow-up slice is data[%s..%s], not data[P..E]" % (expr_str(s_), expr_str(e_)), f.path, f.loc(b), config=cfg)
             else:
@@ -654,8 +676,13 @@ def rule_frag_contig(ctx, cfg, F):
         R.violate("%s:end-variable" % f.path, "the two transmissions do not share one end variable E (%s)" % sorted(E_locals), f.path, config=cfg)
     else:
         E = next(iter(E_locals))
-        good = len(in_loop) == 1 and in_loop[0][1] is not None and in_loop[0][2]["rv"]["r"] == "use" and _is_var(f, in_loop[0][2]["rv"]["a"][0], E)
+        good = len(in_loop) == 1 and in_loop[0][1] is not None and in_loop[0][2]["rv"]["r"] == "use" and (_is_var(f, in_loop[0][2]["rv"]["a"][0], E) or _copy_root(f, in_loop[0][2]["rv"]["a"][0]) == E)
         init_ok = len(init) == 1 and init[0][1] is not None and op_const(init[0][2]["rv"]["a"][0]) == 0
+        if two_phase:
+            # the position is initialised with the end of the first fragment, on the way out of its retry loop (after a transmission that succeeded)
+            init_ok = len(E1_locals) == 1 and len(init) == 1 and init[0][1] is not None and init[0][2]["rv"]["r"] == "use" and \
+                (_is_var(f, init[0][2]["rv"]["a"][0], next(iter(E1_locals))) or _copy_root(f, init[0][2]["rv"]["a"][0]) == next(iter(E1_locals))) and \
+                all(f.dominates(fb, init[0][0]) for fb in first_blocks) and bool(first_blocks)
         if good and init_ok:
             R.ok("P starts at 0 and its only assignment in the loop is P = E", f.loc(in_loop[0][0]), cfg)
         else:
@@ -738,6 +765,67 @@ def _frag_contig_slice(R, cfg, f, ff, fu, P, data_param, ex):
     else:
         R.violate("%s:position-update" % f.path, "the unsent tail is not advanced by exactly `rest = &rest[sent.len()..]` in the loop (loop assignments: %d, transmitted slices: %s)" % (len(in_loop), sorted(sent_vars)), f.path, f.loc((in_loop or [(0,)])[0][0]), config=cfg)
     R.count("transmission_sites[%s]" % cfg, n)
+
+
+def _copy_root(f, operand):
+    """the local a chain of plain single-definition copies starts from"""
+    l = op_local(operand)
+    if l is None or (op_place(operand) or {}).get("p"):
+        return None
+    for _ in range(12):
+        ds = [d for d in f.defs().get(l, []) if not f.is_cleanup(d[0])]
+        if len(ds) == 1 and ds[0][1] is not None and ds[0][2]["rv"]["r"] == "use" and not ds[0][2]["lhs"].get("p"):
+            src = ds[0][2]["rv"]["a"][0]
+            if op_local(src) is not None and not src["pl"].get("p"):
+                l = op_local(src)
+                continue
+        break
+    return l
+
+
+def _range_end_local(f, slice_operand, kind):
+    """`data[..E]` / `data[P..E]` handed to a transmitter: the local that holds E (chasing copies), found through the index call and the range literal"""
+    l = op_local(slice_operand)
+    for _ in range(10):
+        if l is None:
+            return None
+        ds = [d for d in f.defs().get(l, []) if not f.is_cleanup(d[0])]
+        if len(ds) != 1:
+            return None
+        b, si, node = ds[0]
+        if si is None:
+            if strip_generics(callee_name(node)).endswith("index") and len(node["args"]) == 2:
+                rl = op_local(node["args"][1])
+                rds = [d for d in f.defs().get(rl, []) if not f.is_cleanup(d[0])] if rl is not None else []
+                if len(rds) == 1 and rds[0][1] is not None and rds[0][2]["rv"]["r"] == "agg" and str(rds[0][2]["rv"]["kind"].get("adt", "")).endswith("::" + kind):
+                    return _copy_root(f, rds[0][2]["rv"]["a"][-1])
+            return None
+        rv = node["rv"]
+        if rv["r"] in ("use", "cast") and op_local(rv["a"][0]) is not None:
+            l = op_local(rv["a"][0])
+            continue
+        if rv["r"] in ("ref", "raw"):
+            l = rv["pl"]["l"]
+            continue
+        return None
+    return None
+
+
+def _under_is_empty(f, ex, b, data_param):
+    """b is dominated by the true edge of `data.is_empty()` (or `data.len() == 0`)"""
+    for s_ in f.live_blocks():
+        if f.term(s_)["t"] != "switch" or not f.dominates(s_, b):
+            continue
+        for tgt in f.succ(s_):
+            if not (tgt == b or f.dominates(tgt, b)):
+                continue
+            for lab in edge_label(f, s_, tgt):
+                if lab["kind"] == "pred" and lab["pred"] == "is_empty" and lab["truth"] and expr_strip_blocks(ex.of_operand(lab["arg"])) == ("param", data_param):
+                    return True
+                if lab["kind"] == "cmp" and lab["op"] == "Eq" and lab["truth"] and op_const(lab["b"]) == 0 and \
+                        expr_strip_blocks(ex.of_operand(lab["a"])) == ("call", "core::slice::len", (("param", data_param),)):
+                    return True
+    return False
 
 
 def _in_loop(f, b):
@@ -914,6 +1002,31 @@ def _impure_call(F, g, nm, b, depth, seen):
     return out
 
 
+def first_buffer_capacity_sites(F, g):
+    """calls that fix the capacity of the landing buffer of the first packet: `Vec::<u8>::with_capacity(n)` in the receive function, or -- when the buffer is
+    the caller's -- `v.clear(); v.reserve(n)` there plus the with_capacity in every function that builds such a buffer and hands it in.  [(fn, block, term, index of n)]"""
+    out = []
+    for b, t in g.calls_to("std::vec::Vec::with_capacity"):
+        if "u8" in " ".join(t.get("generics", [])):
+            out.append((g, b, t, 0))
+    for b, t in g.calls():
+        if strip_generics(callee_name(t)) in ("std::vec::Vec::reserve", "std::vec::Vec::reserve_exact") and "u8" in " ".join(t.get("generics", [])):
+            rp = ref_place(g, t["args"][0])
+            if rp and any(strip_generics(callee_name(t2)) == "std::vec::Vec::clear" and ref_place(g, t2["args"][0]) == rp and g.dominates(b2, b) for b2, t2 in g.calls()):
+                out.append((g, b, t, 1))
+    if not out or any(ix == 1 for _, _, _, ix in out):
+        # the buffer is a parameter: the callers' constructions count as well
+        for f in F.fns.values():
+            if f.path == g.path:
+                continue
+            if not any(strip_generics(callee_name(t)) == strip_generics(g.path) for _, t in f.calls()):
+                continue
+            for b, t in f.calls_to("std::vec::Vec::with_capacity"):
+                if "u8" in " ".join(t.get("generics", [])):
+                    out.append((f, b, t, 0))
+    return out
+
+
 def rule_recv_cap_const(ctx, cfg, F):
     R = ctx.rule("RECV-CAP-CONST", "the receiver's first-packet buffer capacity is a process constant: it is computed only from constants and once-initialised statics, never from "
                  "state that can change between the moment a packet is put on the wire and the moment it is read (atomics, cells, thread-locals, fresh system calls). A capacity that can "
@@ -923,17 +1036,15 @@ def rule_recv_cap_const(ctx, cfg, F):
         R.violate("anchor-missing:reassembly", "no function calls libc::recv", config=cfg)
         return
     n = 0
-    for b, t in g.calls_to("std::vec::Vec::with_capacity"):
-        if "u8" not in t.get("generics", []):
-            continue
+    for h, b, t, ix in first_buffer_capacity_sites(F, g):
         n += 1
-        bad = impure_reads(F, g, t["args"][0])
+        bad = impure_reads(F, h, t["args"][ix])
         if bad:
             fn_, nm, bb = bad[0]
-            R.violate("%s:capacity-depends-on-mutable-state:%s" % (g.path, nm.split("::")[-1]),
-                      "the first-packet buffer capacity depends on %s (read in %s): it can differ from the size the sender used when the packet was queued" % (nm, fn_), g.path, g.loc(b), config=cfg)
+            R.violate("%s:capacity-depends-on-mutable-state:%s" % (h.path, nm.split("::")[-1]),
+                      "the first-packet buffer capacity depends on %s (read in %s): it can differ from the size the sender used when the packet was queued" % (nm, fn_), h.path, h.loc(b), config=cfg)
         else:
-            R.ok("first-packet buffer capacity is computed from process constants only", g.loc(b), cfg)
+            R.ok("first-packet buffer capacity is computed from process constants only", h.loc(b), cfg)
     R.count("capacity_sites[%s]" % cfg, n)
 
 
@@ -996,6 +1107,8 @@ def rule_shm_sentinel(ctx, cfg, F):
         npaths += 1
         opt = {x[1] for x in facts if x[0] == "opt"}
         wrote = {x[1] for x in facts if x[0] == "wrote"}
+        if not wrote and any(ser.term(pb)["t"] == "call" and "from_residual" in strip_generics(callee_name(ser.term(pb))) for pb in path):
+            continue        # an error exit taken before anything was written (a precondition check with `?`)
         if opt == {"None"} and wrote != {"MAX"}:
             bad = True
             R.violate("ipc::IpcSharedMemory::serialize:empty-not-sentinel", "the empty region is not serialised as usize::MAX (%s)" % sorted(wrote), ser.path, ser.loc(rb), config=cfg)
@@ -1694,9 +1807,14 @@ def rule_size_agree(ctx, cfg, F):
         return
     exg = Expr(g)
     C = None
-    for b, t in g.calls_to("std::vec::Vec::with_capacity"):
-        if "u8" in " ".join(t.get("generics", [])):
-            C = expr_strip_blocks(exg.of_operand(t["args"][0]))
+    Cs = []
+    for h, b, t, ix in first_buffer_capacity_sites(F, g):
+        Cs.append((h, b, expr_strip_blocks((exg if h is g else Expr(h)).of_operand(t["args"][ix]))))
+    if Cs:
+        C = Cs[-1][2] if len(Cs) == 1 else Cs[0][2]
+        for h, b, c in Cs[1:]:
+            if _inline_pure(F, c) != _inline_pure(F, C):
+                R.violate("%s:first-buffer-capacities-differ" % h.path, "landing buffers for the first packet are built with different capacities (%s here, %s elsewhere)" % (expr_str(c), expr_str(C)), h.path, h.loc(b), config=cfg)
     if C is None:
         R.violate("%s:no-first-buffer" % g.path, "the receiver's first-packet buffer (Vec::<u8>::with_capacity) was not found", g.path, config=cfg)
         return
